@@ -39,7 +39,10 @@ func checkVLenWidth(p *Program, r *Report, rule string) {
 			}
 			switch fv.Name() {
 			case "FixedSize":
-				fixedStore = st
+				// only a size taken from the data (a constant width is a format decision, not a detection)
+				if _, isConst := st.Val.(*ssa.Const); !isConst {
+					fixedStore = st
+				}
 			case "PositionBM":
 				posStore = st
 			}
